@@ -410,3 +410,7 @@ def run(ctx):
     swallowed_value_errors(ctx, 'R14.8')
     from ..reflexive import check_reflexive
     check_reflexive(ctx, 'R14.9')
+
+
+from .extra import with_extra  # noqa: E402
+run = with_extra('C14', run)
